@@ -16,6 +16,11 @@
 #   include <cds/container/ellen_bintree_set_dhp.h>
 #elif FAMILY == 4
 #   include <cds/container/ellen_bintree_set_rcu.h>
+#elif FAMILY == 6
+#   include "maps.h"
+#   include <cds/container/skip_list_map_hp.h>
+#   include <cds/container/skip_list_map_rcu.h>
+#   include <cds/container/ellen_bintree_map_hp.h>
 #elif FAMILY == 5
 #   include <cds/container/bronson_avltree_map_rcu.h>
 #   include <cds/sync/pool_monitor.h>
@@ -179,6 +184,19 @@ template <> inline std::string structure_check<el_dhp>( el_dhp& s ) { return s.c
 template <> inline std::string structure_check<el_rcu>( el_rcu& s ) { return s.check_consistency() ? std::string() : std::string( "EllenBinTree::check_consistency() failed at a quiescent point" ); }
 #endif
 }
+#elif FAMILY == 6
+namespace {
+struct int_less { bool operator()( int a, int b ) const { return a < b; } };
+struct caps_tmap: caps_map_hp { typedef std::true_type has_minmax; };
+struct caps_tmap_rcu: caps_map_rcu { typedef std::true_type has_minmax; };
+struct skm_traits: public cc::skip_list::traits { typedef int_less less; typedef cds::atomicity::item_counter item_counter; typedef scripted_levels random_level_generator; };
+typedef cc::SkipListMap<cds::gc::HP, int, long, skm_traits> skm_hp_t;
+typedef MapWrap<skm_hp_t> skm_hp;
+typedef MapWrap< cc::SkipListMap<rcu_gpb, int, long, skm_traits> > skm_rcu;
+struct elm_traits: public cc::ellen_bintree::traits { typedef int_less less; typedef cds::atomicity::item_counter item_counter; };
+typedef cc::EllenBinTreeMap<cds::gc::HP, int, long, elm_traits> elm_hp_t;
+typedef MapWrap<elm_hp_t> elm_hp;
+}
 #elif FAMILY == 5
 namespace {
 // BronsonAVLTreeMap is a map: present it through the uniform set API (Item = key + mapped value)
@@ -235,6 +253,10 @@ int main( int argc, char** argv )
     family<el_dhp, DhpHolder, caps_ellen>( "EllenBinTreeSet", 96, 2, 3, false, 12 );
 #elif FAMILY == 4
     family<el_rcu, GpbHolder, caps_ellen_rcu>( "EllenBinTreeSet", 32, 2, 3, true, 4 );
+#elif FAMILY == 6
+    family<skm_hp, HpHolder<skm_hp_t::c_nHazardPtrCount + 2>, caps_tmap>( "SkipListMap-script" + std::to_string( g_script ), 12 );
+    family<skm_rcu, GpbHolder, caps_tmap_rcu>( "SkipListMap-script" + std::to_string( g_script ), 16 );
+    family<elm_hp, HpHolder<elm_hp_t::c_nHazardPtrCount + 2>, caps_tmap>( "EllenBinTreeMap", 48, 2, 3, true, 6 );
 #elif FAMILY == 5
     family<br_spin, GpbHolder, caps_bronson>( "BronsonAVLTreeMap-injecting-spin", 24, 2, 3, true, 4 );
     family<br_pool, GpbHolder, caps_bronson>( "BronsonAVLTreeMap-pool-monitor", 48, 2, 3, true, 8 );
